@@ -60,7 +60,7 @@ def _run_chunk(chunk):
         except Timeout:
             r = Result()
             r.notes.append(("timeout", item_id(item)))
-        except Exception as e:  # harness-level failure: never a property verdict
+        except (Exception, SystemExit) as e:  # harness-level failure: never a property verdict
             r = Result()
             r.notes.append(("harness_exception", f"{type(e).__name__}: {e} @ {traceback.format_exc()[-1500:]}"))
         finally:
@@ -159,17 +159,98 @@ def run(items, fn, horizon=20.0, nproc=None, chunk=8, budget_s=None, label=""):
                 m.budget_cut = True
                 break
     else:
-        ctx = multiprocessing.get_context("fork")
-        with ctx.Pool(nproc) as pool:
-            for res in pool.imap_unordered(_run_chunk, chunks):
-                merge(res)
-                m.done_items += len(res)
-                now = time.time()
-                if now - last > 30 and os.environ.get("VSGMC_PROGRESS"):
-                    last = now
-                    print(f"  [{label}] {m.done_items}/{m.total_items} {now - t0:.0f}s viol-keys={len(m.violations)}", file=sys.stderr, flush=True)
-                if budget_s and now - t0 > budget_s:
-                    m.budget_cut = True
-                    pool.terminate()
-                    break
+        _own_pool(chunks, nproc, merge, m, t0, budget_s, label)
     return m
+
+
+def _worker_loop(wid, chunks, task_q, res_q):
+    while True:
+        ci = task_q.get()
+        if ci is None:
+            break
+        res_q.put(("start", wid, ci, None))
+        try:
+            res = _run_chunk(chunks[ci])
+        except BaseException as e:  # noqa
+            res_q.put(("error", wid, ci, f"{type(e).__name__}: {e}"))
+            continue
+        res_q.put(("done", wid, ci, res))
+
+
+def _own_pool(chunks, nproc, merge, m, t0, budget_s, label):
+    """Process pool that survives (and reports) the death of a worker: the parent knows which chunk every
+    worker is on; a dead worker's chunk is re-run item by item in fresh single-item processes so that the
+    item that kills the interpreter is identified."""
+    import queue as _q
+
+    ctx = multiprocessing.get_context("fork")
+    task_q, res_q = ctx.Queue(), ctx.Queue()
+    for ci in range(len(chunks)):
+        task_q.put(ci)
+    procs = {}
+    for w in range(nproc):
+        task_q.put(None)
+    for w in range(nproc):
+        p = ctx.Process(target=_worker_loop, args=(w, chunks, task_q, res_q), daemon=True)
+        p.start()
+        procs[w] = p
+    current = {}
+    done = 0
+    last = t0
+    retry = []
+    while done < len(chunks):
+        try:
+            kind, wid, ci, payload = res_q.get(timeout=2.0)
+        except _q.Empty:
+            for w, p in list(procs.items()):
+                if not p.is_alive() and w in current:
+                    ci = current.pop(w)
+                    retry.append(ci)
+                    done += 1
+                    np_ = ctx.Process(target=_worker_loop, args=(w, chunks, task_q, res_q), daemon=True)
+                    task_q.put(None)
+                    np_.start()
+                    procs[w] = np_
+            if budget_s and time.time() - t0 > budget_s:
+                m.budget_cut = True
+                break
+            continue
+        if kind == "start":
+            current[wid] = ci
+        elif kind == "done":
+            current.pop(wid, None)
+            merge(payload)
+            m.done_items += len(payload)
+            done += 1
+        elif kind == "error":
+            current.pop(wid, None)
+            m.harness_errors.append(f"chunk {ci}: {payload}")
+            done += 1
+        now = time.time()
+        if now - last > 30 and os.environ.get("VSGMC_PROGRESS"):
+            last = now
+            print(f"  [{label}] {m.done_items}/{m.total_items} {now - t0:.0f}s viol-keys={len(m.violations)}", file=sys.stderr, flush=True)
+        if budget_s and now - t0 > budget_s:
+            m.budget_cut = True
+            break
+    for p in procs.values():
+        if p.is_alive():
+            p.terminate()
+    # chunks whose worker died: one fresh process per item
+    for ci in retry:
+        for idx, item in chunks[ci]:
+            q2 = ctx.Queue()
+            p = ctx.Process(target=lambda: q2.put(_run_chunk([(idx, item)])), daemon=True)
+            p.start()
+            p.join(_worker_horizon * 2 + 30)
+            try:
+                merge(q2.get(timeout=1.0))
+                m.done_items += 1
+            except Exception:  # noqa
+                if p.is_alive():
+                    p.terminate()
+                r = Result()
+                r.notes.append(("process_died", item_id(item)))
+                m.died = getattr(m, "died", []) + [item]
+                merge([(idx, r)])
+                m.done_items += 1
